@@ -15,11 +15,15 @@ META = {
                    "from the file-system model (unflushed buffers are lost, as for a killed process), every "
                    "in-memory object is dropped, fresh Service objects are built over the same files, and the rest "
                    "of the workflow is run the way a user would (re-creating the service if creation never "
-                   "returned, retrying the interrupted step when the reported state asks for it). The handshake "
+                   "returned, retrying the interrupted step when the reported state asks for it; before that, ONE "
+                   "solver-chosen workflow operation is attempted out of order, as a user who does not remember "
+                   "where the workflow stopped would). The handshake "
                    "must succeed and the workflow must end in correct searches.",
     "bounds": {"interrupted step": "create-service, generate-key, encrypt-database, upload-config (server store + "
                "client acknowledgement), upload-index (server store + client acknowledgement)",
                "crash point": "every state-changing file operation of the step, before and after it",
+               "after restart": "none or one of generate-key / encrypt / upload-config / upload-index / search first "
+               "(solver-chosen), then the workflow in order",
                "database": "2 keywords (index below the 8 KiB write-buffer size, so a partial index file is empty)"},
     "outside_bounds": "crashes inside a single write() of a large index (partial flushes), fsync/disk-cache "
                       "effects, simultaneous crash of both sides at different points",
@@ -129,9 +133,21 @@ def h_crash(P, S):
         out, returned_sid = W._run_op(fs, rt, "", "create", W._valid_config())
         if out != "ok":
             return S.fail("re-create-after-crash-%s" % out)
+    # ... but not necessarily in workflow order: first ONE solver-chosen operation out of order (it may be refused,
+    # or be exactly the right next step), then the rest of the workflow
+    probe = (None, "genkey", "encrypt", "upload_config", "upload_db", "search")[S.pick("probe", 0, 5)]
+    if probe is not None:
+        try:
+            W._flags(fs, returned_sid)
+        except Exception as e:
+            return S.fail("client-state-unreadable:%s|crash %s op %d of %s" % (type(e).__name__, when, k, step))
+        out, _ = W._run_op(fs, rt, returned_sid, probe,
+                           dict(W.DB) if probe == "encrypt" else (b"kw" if probe == "search" else None))
+        if out.startswith("error:") and out != "error:ValueError":
+            return S.fail("probe-%s-failed-with-%s|crash %s op %d of %s" % (probe, out, when, k, step))
     bad = _finish(S, fs, rt, returned_sid)
     if bad:
-        return S.fail("%s|crash %s op %d of %s" % (bad, when, k, step))
+        return S.fail("%s|crash %s op %d of %s, then %s" % (bad, when, k, step, probe))
     return True
 
 
